@@ -286,7 +286,7 @@ class WorldGen:
             m["compositions"] = comps
             if name == "uniform":
                 if r.random() < 0.8 or n != 1:
-                    m["fractions"] = [r.choice([1, 0.5, 0.25, 0.75, 0.125, 2]) for _ in comps]
+                    m["fractions"] = [r.choice([1, 0.5, 0.25, 0.75, 0.125, 2, 0]) for _ in comps]
             elif name == "tian water content":
                 self.tian_keys(m)
             else:
@@ -526,7 +526,7 @@ class WorldGen:
                 if name == "uniform":
                     rng_keys(m)
                     if r.random() < 0.8 or n != 1:
-                        m["fractions"] = [r.choice([1, 0.5, 0.25, 0.75]) for _ in comps]
+                        m["fractions"] = [r.choice([1, 0.5, 0.25, 0.75, 0]) for _ in comps]
                 elif name == "tian water content":
                     rng_keys(m)
                     self.tian_keys(m)
